@@ -6,6 +6,10 @@ import PyModeS.Properties.C02
 import PyModeS.Proofs.Tracker.Process
 import PyModeS.Proofs.Tracker.Case
 import PyModeS.Proofs.Tracker.NoCrash
+import PyModeS.Proofs.Tracker.Position
+import PyModeS.Proofs.Tracker.Quant
+import PyModeS.Properties.C03
+import PyModeS.Properties.C04
 namespace PyModeS.C17
 
 /-- after a call, every listed aircraft was heard at most `cache_timeout` (+ the truncation of `int(t)`) ago:
@@ -347,6 +351,300 @@ theorem processHistory_def (ias : Rat → Int → Rat) (tr : Tracker)
 example : exAdsb.length = 28 ∧ df exAdsb = 17 ∧ exAdsb2.length = 28 ∧ df exAdsb2 = 17 ∧ exCommb.length = 28 ∧
     TrackerWF {} ∧ (adsbStep {} 0 exCommb).isExc = true :=
   ⟨by decide, by decide +kernel, by decide, by decide +kernel, by decide, trackerWF_empty, by decide +kernel⟩
+
+/-! ### 10. Stored positions are the positions carried by the updating frame
+
+  Property, last clause (full statement): "For an aircraft flying any continuous trajectory at up
+  to 600 kt and broadcasting CPR positions, every latitude/longitude the table stores is within
+  0.001 degree of the aircraft's true position at the message that caused the update."
+
+  Proved here (`…_partial`): the algebraic chain
+    stored position = position carried by the updating frame   (`position_invariant_partial`,
+        `position_invariant_surface_partial`: reference branch, via C04.ref_decode;
+        `position_pair_partial`, `position_pair_global_partial`: pair branch, via C03.global_decode)
+    |carried − true| ≤ half a quantisation step < 0.001°       (`carried_within_0_001`, section (c))
+  under the decoders' box hypotheses (reference within half a zone of the carried position; the
+  two frames of a pair within 3/59° in latitude, same NL, longitudes within half the even/odd
+  zone offset).  MISSING, and not a theorem here: the geometric step that "continuous trajectory
+  at ≤ 600 kt" together with the code's 180 s / 10 s windows implies those box hypotheses, and the
+  pair-branch longitude is obtained modulo 360 only (C03).  `e = Spec.cprEncode cprNL base i lat lon`
+  is the DO-260B encoding of the true position `(lat, lon)`; the frame `m` is tied to it by
+  `hf` (its CPR fields read back as `e.yz`, `e.xz`, format bit `i`). -/
+
+open PyModeS.Tracker (SamePos startAc filedAc GateOpen pairTarget)
+
+/-- vocabulary of this section -/
+theorem position_defs (tr : Tracker) (t : Rat) (m : Msg) (oe : Nat) (bits : Bits) (tc : Nat) :
+    startAc tr t m = { (acsGet tr.acs (keyOf m)).getD { live := 0 } with live := pyInt t } ∧
+    filedAc tr t m oe =
+      (if oe = 0 then { startAc tr t m with m0 := some (hex2binM m), t0 := some t }
+       else { startAc tr t m with m1 := some (hex2binM m), t1 := some t }) ∧
+    (GateOpen bits tc ↔ (((5 ≤ tc ∧ tc ≤ 8) ∨ tc = 19) → velocityGate bits = .val (some (true, false, false)))) :=
+  ⟨rfl, rfl, Iff.rfl⟩
+
+/-- generic reference branch (any position type code 5–18 that passes the velocity gate): if
+    `position_with_ref(msg, lat, lon)` on the stored position returns `(X, Y)`, that is what is stored -/
+theorem position_ref_generic (tr : Tracker) (hwf : TrackerWF tr) (t : Rat) (m : Msg)
+    (hlen : m.length = 28) (hdf : df m = 17 ∨ df m = 18) (tc : Nat)
+    (htc : typecode m = some tc) (h518 : 5 ≤ tc ∧ tc ≤ 18) (hgate : GateOpen (hex2binM m) tc)
+    (ac0 : Ac) (hget : acsGet tr.acs (keyOf m) = some ac0)
+    (tp la lo X Y : Rat) (htp : ac0.tpos = some tp) (hrecent : t - tp < 180)
+    (hla : ac0.lat = some la) (hlo : ac0.lon = some lo)
+    (hpwr : positionWithRef (hex2binM m) la lo = .val (X, Y)) :
+    ∃ tr' ac', adsbStep tr t m = .val tr' ∧ TrackerWF tr' ∧ acsGet tr'.acs (keyOf m) = some ac' ∧
+      ac'.lat = some X ∧ ac'.lon = some Y ∧ ac'.tpos = some t ∧ ac'.live = pyInt t := by
+  have hs := Tracker.startAc_of_get (t := t) hget
+  obtain ⟨tr', oe, a', hv, hwf', _, hg, hsp⟩ := Tracker.adsbStep_ref_total tr hwf t m hlen hdf tc htc h518 hgate
+    tp la lo X Y (by rw [hs]; exact htp) hrecent (by rw [hs]; exact hla) (by rw [hs]; exact hlo) hpwr
+  obtain ⟨p1, _, _, _, _, p6, p7, p8⟩ := hsp
+  refine ⟨tr', a', hv, hwf', hg, p7, p8, p6, ?_⟩
+  rw [p1]
+  show (filedAc tr t m oe).live = pyInt t
+  unfold Tracker.filedAc
+  split <;> rfl
+
+/-- **position_invariant_partial** (a, airborne) — `m` is a 28-digit DF17/18 airborne position
+    message (TC 9–18) carrying the encoding `e` of the true position, the sender's record holds a
+    position `(la, lo)` younger than 180 s that lies in the open half-zone box around the carried
+    position (longitude up to `s` zones): then `adsbStep` returns, and the record now holds
+    EXACTLY the carried position `(e.rlat, e.rlon + e.dlon·s)` with `tpos = t`. -/
+theorem position_invariant_partial (tr : Tracker) (hwf : TrackerWF tr) (t : Rat) (m : Msg)
+    (hlen : m.length = 28) (hdf : df m = 17 ∨ df m = 18) (tc : Nat)
+    (htc : typecode m = some tc) (hair : 9 ≤ tc ∧ tc ≤ 18)
+    (i : ℕ) (hi : i = 0 ∨ i = 1) (lat lon : ℚ) (e : Spec.Enc) (he : e = Spec.cprEncode cprNL 360 i lat lon)
+    (hf : cprFields (hex2binM m) = .val ⟨decide (i = 1), e.yz, e.xz⟩)
+    (ac0 : Ac) (hget : acsGet tr.acs (keyOf m) = some ac0)
+    (tp la lo : ℚ) (htp : ac0.tpos = some tp) (hrecent : t - tp < 180)
+    (hla : ac0.lat = some la) (hlo : ac0.lon = some lo)
+    (s : ℤ) (hlat : |la - e.rlat| < e.dlat / 2) (hlon : |lo - (e.rlon + e.dlon * s)| < e.dlon / 2) :
+    ∃ tr' ac', adsbStep tr t m = .val tr' ∧ TrackerWF tr' ∧ acsGet tr'.acs (keyOf m) = some ac' ∧
+      ac'.lat = some e.rlat ∧ ac'.lon = some (e.rlon + e.dlon * s) ∧ ac'.tpos = some t ∧
+      ac'.live = pyInt t := by
+  have htcB : tcB (hex2binM m) = some tc := by rw [← typecode_eq]; exact htc
+  have hpwr := Tracker.positionWithRef_airborne (hex2binM m) tc htcB (Or.inl hair) _ hf la lo
+  rw [PyModeS.C04.ref_decode cprNL 360 (by norm_num) i hi lat lon la lo e he s hlat hlon] at hpwr
+  exact position_ref_generic tr hwf t m hlen hdf tc htc (by omega) (fun h => by omega) ac0 hget
+    tp la lo _ _ htp hrecent hla hlo hpwr
+
+/-- **position_invariant_surface_partial** (a, surface) — the same for a surface position message
+    (TC 5–8, `base = 90`) that the velocity gate lets through (`velocityGate = (GS, speed, track)`
+    all present) -/
+theorem position_invariant_surface_partial (tr : Tracker) (hwf : TrackerWF tr) (t : Rat) (m : Msg)
+    (hlen : m.length = 28) (hdf : df m = 17 ∨ df m = 18) (tc : Nat)
+    (htc : typecode m = some tc) (hsurf : 5 ≤ tc ∧ tc ≤ 8)
+    (hvel : velocityGate (hex2binM m) = .val (some (true, false, false)))
+    (i : ℕ) (hi : i = 0 ∨ i = 1) (lat lon : ℚ) (e : Spec.Enc) (he : e = Spec.cprEncode cprNL 90 i lat lon)
+    (hf : cprFields (hex2binM m) = .val ⟨decide (i = 1), e.yz, e.xz⟩)
+    (ac0 : Ac) (hget : acsGet tr.acs (keyOf m) = some ac0)
+    (tp la lo : ℚ) (htp : ac0.tpos = some tp) (hrecent : t - tp < 180)
+    (hla : ac0.lat = some la) (hlo : ac0.lon = some lo)
+    (s : ℤ) (hlat : |la - e.rlat| < e.dlat / 2) (hlon : |lo - (e.rlon + e.dlon * s)| < e.dlon / 2) :
+    ∃ tr' ac', adsbStep tr t m = .val tr' ∧ TrackerWF tr' ∧ acsGet tr'.acs (keyOf m) = some ac' ∧
+      ac'.lat = some e.rlat ∧ ac'.lon = some (e.rlon + e.dlon * s) ∧ ac'.tpos = some t ∧
+      ac'.live = pyInt t := by
+  have htcB : tcB (hex2binM m) = some tc := by rw [← typecode_eq]; exact htc
+  have hpwr := Tracker.positionWithRef_surface (hex2binM m) tc htcB hsurf _ hf la lo
+  rw [PyModeS.C04.ref_decode cprNL 90 (by norm_num) i hi lat lon la lo e he s hlat hlon] at hpwr
+  exact position_ref_generic tr hwf t m hlen hdf tc htc (by omega) (fun _ => hvel) ac0 hget
+    tp la lo _ _ htp hrecent hla hlo hpwr
+
+/-- **position_pair_partial** (b) — no stored position younger than 180 s; after filing the new
+    frame under its parity `oe` both parities are on file (`b0` even at `t0`, `b1` odd at `t1`) and
+    `|t0 − t1| < 10`: `adsbStep` returns; if `position(b0, b1, t0, t1[, ref])` returns a position it
+    is stored with `tpos = t`; if it returns `None` or raises anything (bare `except: continue`)
+    the stored position is left exactly as it was. -/
+theorem position_pair_partial (tr : Tracker) (hwf : TrackerWF tr) (t : Rat) (m : Msg)
+    (hlen : m.length = 28) (hdf : df m = 17 ∨ df m = 18) (tc : Nat)
+    (htc : typecode m = some tc) (h518 : 5 ≤ tc ∧ tc ≤ 18) (hgate : GateOpen (hex2binM m) tc)
+    (ac0 : Ac) (hget : acsGet tr.acs (keyOf m) = some ac0)
+    (hnoref : ∀ tp, ac0.tpos = some tp → ¬ (t - tp < 180))
+    (oe : Nat) (hoe : oeFlag (hex2binM m) = .val oe)
+    (b0 b1 : Bits) (t0 t1 : Rat)
+    (hm0 : (if oe = 0 then some (hex2binM m) else ac0.m0) = some b0)
+    (hm1 : (if oe = 0 then ac0.m1 else some (hex2binM m)) = some b1)
+    (ht0 : (if oe = 0 then some t else ac0.t0) = some t0)
+    (ht1 : (if oe = 0 then ac0.t1 else some t) = some t1)
+    (hwin : rabs (t0 - t1) < 10) :
+    ∃ tr' ac', adsbStep tr t m = .val tr' ∧ TrackerWF tr' ∧ acsGet tr'.acs (keyOf m) = some ac' ∧
+      ac'.m0 = some b0 ∧ ac'.m1 = some b1 ∧ ac'.t0 = some t0 ∧ ac'.t1 = some t1 ∧ ac'.live = pyInt t ∧
+      (match position b0 b1 t0 t1 tr.ref with
+       | .val (some p) => ac'.lat = some p.1 ∧ ac'.lon = some p.2 ∧ ac'.tpos = some t
+       | _ => ac'.lat = ac0.lat ∧ ac'.lon = ac0.lon ∧ ac'.tpos = ac0.tpos) := by
+  have hs := Tracker.startAc_of_get (t := t) hget
+  have f0 : (filedAc tr t m oe).m0 = some b0 := by
+    rw [← hm0]; unfold Tracker.filedAc; rw [hs]; split <;> rfl
+  have f1 : (filedAc tr t m oe).m1 = some b1 := by
+    rw [← hm1]; unfold Tracker.filedAc; rw [hs]; split <;> rfl
+  have g0 : (filedAc tr t m oe).t0 = some t0 := by
+    rw [← ht0]; unfold Tracker.filedAc; rw [hs]; split <;> rfl
+  have g1 : (filedAc tr t m oe).t1 = some t1 := by
+    rw [← ht1]; unfold Tracker.filedAc; rw [hs]; split <;> rfl
+  have fl : (filedAc tr t m oe).live = pyInt t ∧ (filedAc tr t m oe).lat = ac0.lat ∧
+      (filedAc tr t m oe).lon = ac0.lon ∧ (filedAc tr t m oe).tpos = ac0.tpos := by
+    unfold Tracker.filedAc; rw [hs]; split <;> exact ⟨rfl, rfl, rfl, rfl⟩
+  obtain ⟨tr', a', hv, hwf', hg, hsp⟩ := Tracker.adsbStep_pair_total tr hwf t m hlen hdf tc htc h518 hgate
+    (by rw [hs]; exact hnoref) oe hoe b0 b1 t0 t1 f0 f1 g0 g1 hwin
+  refine ⟨tr', a', hv, hwf', hg, ?_⟩
+  generalize position b0 b1 t0 t1 tr.ref = r at hsp ⊢
+  obtain ⟨p1, p2, p3, p4, p5, p6, p7, p8⟩ := hsp
+  rcases r with (_ | p) | _ | _
+  · exact ⟨p2.trans f0, p3.trans f1, p4.trans g0, p5.trans g1, p1.trans fl.1,
+      p7.trans fl.2.1, p8.trans fl.2.2.1, p6.trans fl.2.2.2⟩
+  · exact ⟨p2.trans f0, p3.trans f1, p4.trans g0, p5.trans g1, p1.trans fl.1, p7, p8, p6⟩
+  · exact ⟨p2.trans f0, p3.trans f1, p4.trans g0, p5.trans g1, p1.trans fl.1,
+      p7.trans fl.2.1, p8.trans fl.2.2.1, p6.trans fl.2.2.2⟩
+  · exact ⟨p2.trans f0, p3.trans f1, p4.trans g0, p5.trans g1, p1.trans fl.1,
+      p7.trans fl.2.1, p8.trans fl.2.2.1, p6.trans fl.2.2.2⟩
+
+/-- **position_pair_global_partial** (b + C03) — airborne pair: the two frames on file are airborne
+    position frames carrying `e0` (even) and `e1` (odd); under the hypotheses of `C03.global_decode`
+    the stored latitude is the carried latitude of the NEWER frame and the stored longitude is its
+    carried longitude modulo 360, in `(-180, 180]`. -/
+theorem position_pair_global_partial (tr : Tracker) (hwf : TrackerWF tr) (t : Rat) (m : Msg)
+    (hlen : m.length = 28) (hdf : df m = 17 ∨ df m = 18) (tc : Nat)
+    (htc : typecode m = some tc) (hair : 9 ≤ tc ∧ tc ≤ 18)
+    (ac0 : Ac) (hget : acsGet tr.acs (keyOf m) = some ac0)
+    (hnoref : ∀ tp, ac0.tpos = some tp → ¬ (t - tp < 180))
+    (oe : Nat) (hoe : oeFlag (hex2binM m) = .val oe)
+    (b0 b1 : Bits) (t0 t1 : Rat)
+    (hm0 : (if oe = 0 then some (hex2binM m) else ac0.m0) = some b0)
+    (hm1 : (if oe = 0 then ac0.m1 else some (hex2binM m)) = some b1)
+    (ht0 : (if oe = 0 then some t else ac0.t0) = some t0)
+    (ht1 : (if oe = 0 then ac0.t1 else some t) = some t1)
+    (hwin : rabs (t0 - t1) < 10)
+    (tc0 tc1 : Nat) (htc0 : tcB b0 = some tc0) (htc1 : tcB b1 = some tc1)
+    (hair01 : 9 ≤ tc0 ∧ tc0 ≤ 18 ∧ 9 ≤ tc1 ∧ tc1 ≤ 18)
+    (lat0 lon0 lat1 lon1 : ℚ) (e0 e1 : Spec.Enc)
+    (he0 : e0 = Spec.cprEncode cprNL 360 0 lat0 lon0) (he1 : e1 = Spec.cprEncode cprNL 360 1 lat1 lon1)
+    (hf0 : cprFields b0 = .val ⟨false, e0.yz, e0.xz⟩) (hf1 : cprFields b1 = .val ⟨true, e1.yz, e1.xz⟩)
+    (hr0 : -90 ≤ e0.rlat ∧ e0.rlat ≤ 90) (hr1 : -90 ≤ e1.rlat ∧ e1.rlat ≤ 90)
+    (hclose : |e0.rlat - e1.rlat| < 3 / 59)
+    (hnl : cprNL e0.rlat = cprNL e1.rlat)
+    (hlon : 2 ≤ cprNL e0.rlat → ∃ s : ℤ,
+      |e0.rlon - e1.rlon - 360 * s| < 180 / ((cprNL e0.rlat : ℚ) * ((cprNL e0.rlat : ℚ) - 1))) :
+    ∃ tr' ac' lonS, adsbStep tr t m = .val tr' ∧ TrackerWF tr' ∧ acsGet tr'.acs (keyOf m) = some ac' ∧
+      ac'.lat = some (if t0 > t1 then e0.rlat else e1.rlat) ∧ ac'.lon = some lonS ∧
+      (∃ z : ℤ, lonS = (if t0 > t1 then e0.rlon else e1.rlon) + 360 * z) ∧ -180 < lonS ∧ lonS ≤ 180 ∧
+      ac'.tpos = some t := by
+  obtain ⟨tr', ac', hv, hwf', hg, _, _, _, _, _, hpos⟩ := position_pair_partial tr hwf t m hlen hdf tc htc
+    (by omega) (fun h => by omega) ac0 hget hnoref oe hoe b0 b1 t0 t1 hm0 hm1 ht0 ht1 hwin
+  obtain ⟨lonS, hdec, hz, hlo, hhi⟩ := PyModeS.C03.global_decode cprNL lat0 lon0 lat1 lon1 t0 t1 e0 e1 he0 he1
+    hr0 hr1 hclose hnl hlon
+  rw [Tracker.position_airborne b0 b1 tc0 tc1 htc0 htc1 (Or.inl hair01) _ _ hf0 hf1 t0 t1 tr.ref, hdec] at hpos
+  exact ⟨tr', ac', lonS, hv, hwf', hg, hpos.1, hpos.2.1, hz, hlo, hhi, hpos.2.2⟩
+
+/-! #### (c) the carried position is within half a quantisation step of the true position -/
+
+/-- half a step of the 17-bit grid: `|rlat − lat| ≤ dlat/2^18`, `|rlon − lon| ≤ dlon/2^18`
+    (any NL function, any `base > 0`; `dlat = base/(60 − i)`, `dlon = base/max(NL(rlat) − i, 1)`) -/
+theorem carried_quantisation (nl : ℚ → ℕ) (base : ℚ) (hb : 0 < base) (i : ℕ) (hi : i = 0 ∨ i = 1)
+    (lat lon : ℚ) (e : Spec.Enc) (he : e = Spec.cprEncode nl base i lat lon) :
+    |e.rlat - lat| ≤ e.dlat / 2 ^ 18 ∧ |e.rlon - lon| ≤ e.dlon / 2 ^ 18 ∧
+    e.dlat = base / (60 - (i : ℚ)) ∧ e.dlon = base / ((max (nl e.rlat - i) 1 : ℕ) : ℚ) :=
+  ⟨Tracker.quant_lat nl base hb i hi lat lon e he, Tracker.quant_lon nl base hb i hi lat lon e he,
+    by subst he; rfl, Tracker.dlon_eq' nl base i lat lon e he⟩
+
+/-- airborne, in degrees: latitude error ≤ 360/59/2^18 (< 0.0000233°), longitude error ≤ 360/(ni·2^18) -/
+theorem carried_quantisation_360 (nl : ℚ → ℕ) (i : ℕ) (hi : i = 0 ∨ i = 1) (lat lon : ℚ) (e : Spec.Enc)
+    (he : e = Spec.cprEncode nl 360 i lat lon) :
+    |e.rlat - lat| ≤ 360 / 59 / 2 ^ 18 ∧
+    |e.rlon - lon| ≤ 360 / ((max (nl e.rlat - i) 1 : ℕ) : ℚ) / 2 ^ 18 ∧
+    (360 : ℚ) / 59 / 2 ^ 18 < 233 / 10000000 :=
+  ⟨Tracker.quant_lat_360 nl i hi lat lon e he, Tracker.quant_lon_360 nl i hi lat lon e he, by norm_num⟩
+
+/-- **carried_within_0_001** (airborne, base 360): with at least two longitude zones (`ni ≥ 2`,
+    i.e. everywhere except within 3° of the poles, where one step is 360/2^18 = 0.00137°) the
+    carried position is within 0.001° of the true one in both coordinates -/
+theorem carried_within_0_001 (nl : ℚ → ℕ) (i : ℕ) (hi : i = 0 ∨ i = 1) (lat lon : ℚ)
+    (e : Spec.Enc) (he : e = Spec.cprEncode nl 360 i lat lon)
+    (hni : 2 ≤ max (nl e.rlat - i) 1) :
+    |e.rlon - lon| < 1 / 1000 ∧ |e.rlat - lat| < 1 / 1000 :=
+  Tracker.carried_within_0_001 nl i hi lat lon e he hni
+
+/-- surface (base 90): unconditionally -/
+theorem carried_within_0_001_surface (nl : ℚ → ℕ) (i : ℕ) (hi : i = 0 ∨ i = 1) (lat lon : ℚ)
+    (e : Spec.Enc) (he : e = Spec.cprEncode nl 90 i lat lon) :
+    |e.rlon - lon| < 1 / 1000 ∧ |e.rlat - lat| < 1 / 1000 :=
+  Tracker.carried_within_0_001_surface nl i hi lat lon e he
+
+/-- the `ni ≥ 2` hypothesis cannot be dropped: at latitude 88° the longitude 0.00137° is carried as 0 -/
+theorem carried_within_0_001_sharp :
+    max (cprNL (Spec.cprEncode cprNL 360 0 88 (137 / 100000)).rlat - 0) 1 = 1 ∧
+    (Spec.cprEncode cprNL 360 0 88 (137 / 100000)).rlon = 0 ∧
+    ¬ |(Spec.cprEncode cprNL 360 0 88 (137 / 100000)).rlon - 137 / 100000| < 1 / 1000 :=
+  ⟨Tracker.carried_within_0_001_sharp.1, Tracker.carried_within_0_001_sharp.2.2.1,
+    Tracker.carried_within_0_001_sharp.2.2.2⟩
+
+/-- **stored_within_0_001_partial** — (a) and (c) chained, airborne reference branch, reference in
+    the box of the carried position itself (`s = 0`) and `ni ≥ 2`: the latitude/longitude the table
+    stores after the update is within 0.001° of the aircraft's true position `(lat, lon)`.
+    (Partial: the box hypotheses `hlat`, `hlon` stand for the missing geometric step, see the
+    section header.) -/
+theorem stored_within_0_001_partial (tr : Tracker) (hwf : TrackerWF tr) (t : Rat) (m : Msg)
+    (hlen : m.length = 28) (hdf : df m = 17 ∨ df m = 18) (tc : Nat)
+    (htc : typecode m = some tc) (hair : 9 ≤ tc ∧ tc ≤ 18)
+    (i : ℕ) (hi : i = 0 ∨ i = 1) (lat lon : ℚ) (e : Spec.Enc) (he : e = Spec.cprEncode cprNL 360 i lat lon)
+    (hf : cprFields (hex2binM m) = .val ⟨decide (i = 1), e.yz, e.xz⟩)
+    (hni : 2 ≤ max (cprNL e.rlat - i) 1)
+    (ac0 : Ac) (hget : acsGet tr.acs (keyOf m) = some ac0)
+    (tp la lo : ℚ) (htp : ac0.tpos = some tp) (hrecent : t - tp < 180)
+    (hla : ac0.lat = some la) (hlo : ac0.lon = some lo)
+    (hlat : |la - e.rlat| < e.dlat / 2) (hlon : |lo - e.rlon| < e.dlon / 2) :
+    ∃ tr' ac' x y, adsbStep tr t m = .val tr' ∧ acsGet tr'.acs (keyOf m) = some ac' ∧
+      ac'.lat = some x ∧ ac'.lon = some y ∧ ac'.tpos = some t ∧
+      |x - lat| < 1 / 1000 ∧ |y - lon| < 1 / 1000 := by
+  obtain ⟨tr', ac', hv, _, hg, h1, h2, h3, _⟩ := position_invariant_partial tr hwf t m hlen hdf tc htc hair
+    i hi lat lon e he hf ac0 hget tp la lo htp hrecent hla hlo 0 hlat (by simpa using hlon)
+  obtain ⟨q1, q2⟩ := carried_within_0_001 cprNL i hi lat lon e he hni
+  exact ⟨tr', ac', e.rlat, e.rlon, hv, hg, h1, by simpa using h2, h3, q2, q1⟩
+
+/-- observations used in the examples: `(key, lat, lon, tpos)` of every record; the CPR fields of a frame -/
+def posList (r : Res Tracker) : Option (List (Msg × Option Rat × Option Rat × Option Rat)) :=
+  match r with
+  | .val tr => some (tr.acs.map fun p => (p.1, p.2.lat, p.2.lon, p.2.tpos))
+  | _ => none
+def cprTriple (r : Res CprFrame) : Option (Bool × Nat × Nat) :=
+  match r with
+  | .val f => some (f.oe, f.lat, f.lon)
+  | _ => none
+
+/-- the pyModeS test pair (even / odd airborne position of 40621D, TC 11) -/
+def exEven : Msg := "8D40621D58C382D690C8AC2863A7".toList
+def exOdd : Msg := "8D40621D58C386435CC412692AD6".toList
+
+/-- hypotheses of `position_pair_global_partial` and of `position_invariant_partial` /
+    `stored_within_0_001_partial` are met by the history even@0, odd@1, even@3: the frames carry
+    the encodings `e0`, `e1`; the pair (odd newer) stores `e1`'s carried position at t = 1; the third
+    message finds it 2 s old and inside the half-zone box of `e0`'s carried position -/
+example :
+    let e0 := Spec.cprEncode cprNL 360 0 (522572 / 10000) (391937 / 100000)
+    let e1 := Spec.cprEncode cprNL 360 1 (25261515 / 483328) (225873 / 57344)
+    exEven.length = 28 ∧ df exEven = 17 ∧ typecode exEven = some 11 ∧ typecode exOdd = some 11 ∧
+    cprTriple (cprFields (hex2binM exEven)) = some (decide (0 = 1), e0.yz, e0.xz) ∧
+    cprTriple (cprFields (hex2binM exOdd)) = some (true, e1.yz, e1.xz) ∧
+    (e1.rlat, e1.rlon) = (25261515 / 483328, 225873 / 57344) ∧
+    (-90 ≤ e0.rlat ∧ e0.rlat ≤ 90) ∧ (-90 ≤ e1.rlat ∧ e1.rlat ≤ 90) ∧ |e0.rlat - e1.rlat| < 3 / 59 ∧
+    cprNL e0.rlat = cprNL e1.rlat ∧
+    |e0.rlon - e1.rlon - 360 * (0 : ℤ)| < 180 / ((cprNL e0.rlat : ℚ) * ((cprNL e0.rlat : ℚ) - 1)) ∧
+    rabs ((0 : ℚ) - 1) < 10 ∧
+    2 ≤ max (cprNL e0.rlat - 0) 1 ∧ (3 : ℚ) - 1 < 180 ∧
+    |(25261515 / 483328 : ℚ) - e0.rlat| < e0.dlat / 2 ∧ |(225873 / 57344 : ℚ) - e0.rlon| < e0.dlon / 2 := by
+  decide +kernel
+/-- … and the model stores exactly the carried positions: `e1`'s after the pair, `e0`'s after the
+    reference update (within 0.001° of the true 52.2572, 3.91937) -/
+example :
+    posList (foldRes (fun tr p => adsbStep tr p.1 p.2) {} [((0 : Rat), exEven), (1, exOdd)])
+      = some [("40621D".toList, some (Spec.cprEncode cprNL 360 1 (25261515 / 483328) (225873 / 57344)).rlat,
+          some (Spec.cprEncode cprNL 360 1 (25261515 / 483328) (225873 / 57344)).rlon, some 1)] := by
+  decide +kernel
+example :
+    posList (foldRes (fun tr p => adsbStep tr p.1 p.2) {} [((0 : Rat), exEven), (1, exOdd), (3, exEven)])
+      = some [("40621D".toList, some (Spec.cprEncode cprNL 360 0 (522572 / 10000) (391937 / 100000)).rlat,
+          some (Spec.cprEncode cprNL 360 0 (522572 / 10000) (391937 / 100000)).rlon, some 3)] := by
+  decide +kernel
+example :
+    let e0 := Spec.cprEncode cprNL 360 0 (522572 / 10000) (391937 / 100000)
+    |e0.rlat - 522572 / 10000| < 1 / 1000 ∧ |e0.rlon - 391937 / 100000| < 1 / 1000 := by decide +kernel
 
 /-! ### Concrete histories (the hypotheses above are satisfiable, and the conclusions are what
     the model computes): two ADS-B senders 406B90 and 400940, one Comm-B reply from 400940 -/
